@@ -1,4 +1,5 @@
 import IdpyVerif.Model.Resolve
+import IdpyVerif.Model.Handler
 import IdpyVerif.Model.UrlEnc
 namespace Idpy.Driver.Resolve
 open Idpy Idpy.Wire Idpy.Resolve
@@ -27,5 +28,17 @@ def handle (args : List String) : Option String :=
     -- idealised handler layer: a genuine value decodes to the session it was minted in
     let decode : Decode := fun _ x => (ms.find? (·.value = x)).map (·.session)
     some (match honour decode ms sl str with | some sid => s!"honoured {sid}" | none => "refused")
+  | ["handler", hs, hkey, tkey, plain] => do
+    -- the handler layer: DefaultToken.info per handler, TokenHandler.get_handler, the sid get_session_info_by_token goes on with
+    let hl ← (← decList hs).foldr (fun e acc => match UrlEnc.splitAll 31 e, acc with
+        | [n, a, k], some l => some (({ name := n, alt := a, key := natOf k } : Handler.H) :: l)
+        | _, _ => none) (some [])
+    let hk ← if hkey = "none" then some none else (decStr hkey).map some
+    let t : Handler.Tok := { key := natOf (← decStr tkey), plain := ← decStr plain }
+    let showInfo (i : Handler.Info) : String := s!"ok {encStr i.id} {encStr i.cls} {encOpt i.sid} {encOpt i.exp}"
+    let infos := hl.map fun h => match Handler.info h t with | .ok i => showInfo i | .skip => "skip" | .raise => "raise"
+    let get := match Handler.getHandler hl t with
+      | none => "raise" | some none => "none" | some (some (h, i)) => s!"{encStr h.name} {showInfo i}"
+    some ("|".intercalate infos ++ " get=" ++ get ++ " sid=" ++ encOpt (Handler.sidBy hl hk t))
   | _ => none
 end Idpy.Driver.Resolve
